@@ -50,7 +50,7 @@ theorem next_enabled_of_free {cfg : Cfg} {s : Sys} {i : Nat} {t : Thread}
   case gcLU o n refs => cases o <;> exact ⟨{}, _, rfl⟩
   case swCRrel cid ws a start => cases start <;> exact ⟨{}, _, rfl⟩
   case xwCRrel cid ws stop => cases stop <;> exact ⟨{}, _, rfl⟩
-  case swAH cid a wid rest h => exact ⟨{ fault := true }, (.relC cid .err, .nop), by simp [next]⟩
+  case swAH cid a st wid rest h => exact ⟨{ fault := true }, (.relC cid .err, .nop), by simp [next]⟩
   all_goals (simp only [next, acquire, hfree, if_true]; exact ⟨{}, _, rfl⟩)
 
 /-- a thread that holds a lock can step, provided the one request made while holding a lock
@@ -86,7 +86,7 @@ theorem next_enabled_of_held {cfg : Cfg} {s : Sys} {i : Nat} {t : Thread}
   case gcLU o n refs => cases o <;> exact ⟨{}, _, rfl⟩
   case swCRrel cid ws a start => cases start <;> exact ⟨{}, _, rfl⟩
   case xwCRrel cid ws stop => cases stop <;> exact ⟨{}, _, rfl⟩
-  case swAH cid a wid rest h => exact ⟨{ fault := true }, (.relC cid .err, .nop), by simp [next]⟩
+  case swAH cid a st wid rest h => exact ⟨{ fault := true }, (.relC cid .err, .nop), by simp [next]⟩
   all_goals first
     | (exact absurd rfl hheld)
     | (simp only [next]; exact ⟨{}, _, rfl⟩)
